@@ -25,6 +25,12 @@ func runC16(c *mon.Ctx) {
 			}
 		}
 		c16Case(c, r, encs, calcs)
+		if i%6 == 0 {
+			// the reporter's own use of the calculator: the size it charges for a
+			// metric (measured with maximal placeholder values) must bound what the
+			// metric occupies when emitted, whatever was allocated before it
+			c12Life(c, r.Fork(77), "reporter-size")
+		}
 	})
 }
 
